@@ -436,6 +436,17 @@ pub fn c01_strategy() -> BoxedStrategy<SchedConvCase> {
             }
             let groups = partition_groups(n, mask);
             let own_tasks = groups.len() == n;
+            // now and then the pipeline ends in a request the library answers itself (400 / 417): that
+            // answer, too, leaves after all the earlier ones, whenever their handlers get round to them
+            if tape.len() % 5 == 2 {
+                let mut r = ReqSpec::simple(n as u32);
+                r.mal = Some(match tape.len() % 3 {
+                    0 => vcore::wire::Malform::ReqLineFields(1),
+                    1 => vcore::wire::Malform::HeaderNoColon { at: 0, text: "NoColonHere".into() },
+                    _ => vcore::wire::Malform::Expect("200-ok".into()),
+                });
+                conv.reqs.push(r);
+            }
             let script = vec![Step::Send { from: 0, to: 0 }, Step::HalfClose];
             SchedConvCase { case: ConvCase { conv, progs, script, transport: Transport::Mem }, groups, collect_first: false, enter_order: if own_tasks { order } else { None }, cuts, hold_after_read: None, feed: None, intr: if tape.len() % 4 == 3 { 2 + (tape.len() % 3) as u8 } else { 0 }, hold_writer: None, tape }
         })
